@@ -126,6 +126,7 @@ type World struct {
 	llJSON       [2][]byte
 	llWhich      int
 	llStolen     bool          // a direct RefreshLogList ran at some point of the run: which list the refresher last saw - and so whether the next change of the file looks like a change to it - can no longer be told; the proxy's list is not judged from then on
+	shardEdge    int           // months after the epoch at which the run's two temporal shards meet
 	drain        *drainGroup   // lockstep spec: concurrent SetLogWeight(log, 0) calls on a group of their own
 	llSteals     bool          // per run: direct RefreshLogList calls are part of the workload (half of the proxy runs)
 	rootFlips    int           // lockstep spec: how often a log has changed its accepted roots
@@ -178,6 +179,10 @@ func (w *World) Init(s *kernel.Sim) {
 	w.policy = []string{"chrome", "apple"}[t.Intn(2)]
 	nOps := t.Range(2, 4)
 	nLogs := t.Range(3, 10)
+	w.shardEdge = 24
+	if t.Chance(1, 2) {
+		w.shardEdge = months[t.Intn(len(months))]
+	}
 	ll := &loglist3.LogList{}
 	for o := 0; o < nOps; o++ {
 		op := &loglist3.Operator{Name: fmt.Sprintf("Operator %d", o), Email: []string{fmt.Sprintf("ops@operator%d.example", o)}}
@@ -206,11 +211,14 @@ func (w *World) Init(s *kernel.Sim) {
 			l.State = "rejected"
 		}
 		if t.Chance(1, 4) {
-			// a temporal shard: either around the near lifetimes or the far ones
+			// a temporal shard: either around the near lifetimes or the far ones. The boundary between the two is, in
+			// half of the runs, one of the NotAfter instants the run's certificates can have: NotAfter == EndExclusive of
+			// the one shard == StartInclusive of the other (an interval contains its start and not its end)
+			b := w.shardEdge
 			if t.Chance(1, 2) {
-				l.Interval = &[2]time.Time{w.epoch, w.epoch.AddDate(0, 24, 0)}
+				l.Interval = &[2]time.Time{w.epoch, w.epoch.AddDate(0, b, 0)}
 			} else {
-				l.Interval = &[2]time.Time{w.epoch.AddDate(0, 24, 0), w.epoch.AddDate(0, 60, 0)}
+				l.Interval = &[2]time.Time{w.epoch.AddDate(0, b, 0), w.epoch.AddDate(0, 60, 0)}
 			}
 		}
 		for r := range w.roots {
